@@ -339,7 +339,7 @@ def generate(seed, tier, opts):
         case["order"] = rng.sample(range(len(edits)), len(edits))
     elif kind == "S":
         case["point"] = _jsonable_point(_draw_point(model, rng, nprng, 0.4))
-        case["mults"] = [1.0, 1e2, 1e4]
+        case["mults"] = [1.0, 1e2, 1e4, 1e6]
     return case
 
 
@@ -918,13 +918,19 @@ def _exec_stiffness(case, res, log, probe, violation, check_state, check_round_t
         probe("rigid_limit_1e8")
     log.add("stiff", [(m_, "%.6e" % d, "%.9f" % c) for m_, d, c in vals], "%.9f" % CLr)
     res["fault_fired"]["stiffness_sweep"] = 1
-    for (m0, d0, c0), (m1_, d1, c1) in zip(vals[:-1], vals[1:]):
+    for i, ((m0, d0, c0), (m1_, d1, c1)) in enumerate(zip(vals[:-1], vals[1:])):
         probe("stiffness_pair_checked")
         if not d1 <= d0 / 10.0:
             violation("stiffness", "disp does not shrink >=10x per 100x stiffness", d1, d0, {"mults": [m0, m1_]})
         e0, e1 = abs(c0 - CLr), abs(c1 - CLr)
-        if e0 > 1e-9 and not e1 <= e0 / 10.0 + 1e-9:
+        # "tends to" is a statement about the limit: CL - CL_rigid = a/m + b/m^2 + ..., and at the baseline
+        # stiffness (deflections of metres) the terms can nearly cancel (seen on the wingbox model: 1.5e-4 at m=1,
+        # 4.1e-5 at m=100, 4e-7 at m=1e4). The >=10x-per-100x test is therefore applied from m=100 on.
+        if i >= 1 and e0 > 1e-9 and not e1 <= e0 / 10.0 + 1e-9:
             violation("stiffness", "CL does not tend to the rigid CL", e1, e0, {"mults": [m0, m1_], "CL_rigid": CLr})
+    e_first, e_last = abs(vals[0][2] - CLr), abs(vals[-1][2] - CLr)
+    if not e_last <= max(1e-3 * e_first, 1e-7 * abs(CLr)) + 1e-9:
+        violation("stiffness", "CL does not tend to the rigid CL", e_last, e_first, {"mults": [vals[0][0], vals[-1][0]], "CL_rigid": CLr})
     res["schedule_hash"] = core.digest([spec, case["point"]])
 
 
